@@ -362,7 +362,9 @@ Leaves(as, prefix) ==
 RECURSIVE Chain(_, _)
 Chain(s, l) == IF s.attrsR /\ s.parent[l] # 0 THEN Chain(s, s.parent[l]) \o s.cfg[l].attrs ELSE s.cfg[l].attrs
 
-CtxKeyAttr(a) == 50 + a
+\* context key ids from 10 on are DISTINCT keys that print under the name of key a - 10 (two keys of
+\* different types with one name): each is looked up by its own identity, the attributes collide by name
+CtxKeyAttr(a) == 50 + (IF a >= 10 THEN a - 10 ELSE a)
 FromCtx(s, l, cv) ==
     LET ks == s.cfg[l].ctx
         Val(a) == IF \E x \in DOMAIN cv : cv[x][1] = a THEN cv[CHOOSE x \in DOMAIN cv : cv[x][1] = a][2] ELSE 0
